@@ -432,7 +432,8 @@ def generate_maskinterp(repo):
     if top is None:
         raise Unrecognised('`if xval is None:` not found')
     out = ['(* GENERATED by translate/c17.py from pydl/pydlutils/image.py (djs_maskinterp1, const rules) -- do not edit *)',
-           'From Coq Require Import ZArith List Bool.', 'Open Scope Z_scope.', '',
+           'From Coq Require Import ZArith QArith List Bool.', 'From PV Require Import C17.Base.', 'Import ListNotations.',
+           'Open Scope Z_scope.', '',
            '(* each rule: guard, destination slice [lo, hi), source index -- in sample order (xval is None) or',
            '   in x-sorted order through ii (xval given).  igood : Z -> Z is the list of good positions. *)']
     env = {'igood[]': 'igood', 'ngood': 'ngood', 'ny': 'ny'}
@@ -464,7 +465,237 @@ def generate_maskinterp(repo):
     rules(top.body, False, 'idx')
     rules(top.orelse, True, 'x')
     out.append('Definition maskinterp_recognised : bool := true.')
+    out.append('')
+    out.extend(generate_aesthetics(repo))
+    out.append('')
+    out.extend(generate_nd_dispatch(ast.parse(src)))
     return '\n'.join(out) + '\n'
+
+
+def generate_aesthetics(repo):
+    """pydl/pydlspec2d/spec2d.py aesthetics(): the bad-pixel test, the all-bad shortcut, the any-bad guard, and per
+    method the mask expression / const flag given to djs_maskinterp, or the good-pixel test, destination and source
+    of the `mean` assignment"""
+    src = open(os.path.join(repo, 'pydl/pydlspec2d/spec2d.py')).read()
+    fn = find_function(ast.parse(src), 'aesthetics')
+    body = strip_doc(fn.body)
+    env = {'invvar': 'v'}
+    out = ['(* pydl/pydlspec2d/spec2d.py (aesthetics) *)']
+    bp = assign_of(body[0], 'badpts')
+    if bp is None:
+        raise Unrecognised('badpts = ... expected first in aesthetics')
+    out.append('(* source line %d *)' % body[0].lineno)
+    out.append('Definition aes_badpts (v : Q) : bool := (%s)%%Q.' % bexpr(bp, env))
+    pos = 1
+    allbad = False
+    st = body[pos]
+    if isinstance(st, ast.If) and ast.unparse(st.test) == 'badpts.all()':
+        if not (len(st.body) == 1 and not st.orelse and isinstance(st.body[0], ast.Return) and is_name(st.body[0].value, 'flux')):
+            raise Unrecognised('`if badpts.all(): return flux` expected')
+        allbad = True
+        pos += 1
+    out.append('Definition aes_allbad_returns_input : bool := %s.' % ('true' if allbad else 'false'))
+    st = body[pos]
+    if not (pos == len(body) - 1 and isinstance(st, ast.If) and ast.unparse(st.test) == 'badpts.any()' and len(st.orelse) == 1
+            and isinstance(st.orelse[0], ast.Return) and is_name(st.orelse[0].value, 'flux')
+            and isinstance(st.body[-1], ast.Return) and is_name(st.body[-1].value, 'newflux') and len(st.body) == 2):
+        raise Unrecognised('`if badpts.any(): <dispatch>; return newflux else: return flux` expected')
+    branches = {}
+    node = st.body[0]
+    while isinstance(node, ast.If):
+        t = node.test
+        if not (isinstance(t, ast.Compare) and is_name(t.left, 'method') and len(t.ops) == 1 and isinstance(t.ops[0], ast.Eq)
+                and isinstance(t.comparators[0], ast.Constant) and isinstance(t.comparators[0].value, str)):
+            raise Unrecognised('`method == <str>` expected in the dispatch of aesthetics')
+        branches[t.comparators[0].value] = node.body
+        if len(node.orelse) == 1 and isinstance(node.orelse[0], ast.If):
+            node = node.orelse[0]
+        else:
+            if not (len(node.orelse) == 1 and isinstance(node.orelse[0], ast.Raise)):
+                raise Unrecognised('the dispatch of aesthetics must end with `else: raise`')
+            break
+    for meth, tag in (('traditional', 'trad'), ('noconst', 'noconst')):
+        b = branches.get(meth)
+        v = assign_of(b[0], 'newflux') if b is not None and len(b) == 1 else None
+        if not (isinstance(v, ast.Call) and is_name(v.func, 'djs_maskinterp') and len(v.args) == 2 and is_name(v.args[0], 'flux')
+                and all(k.arg == 'const' and isinstance(k.value, ast.Constant) and isinstance(k.value.value, bool) for k in v.keywords)
+                and len(v.keywords) <= 1):
+            raise Unrecognised('%s: newflux = djs_maskinterp(flux, <mask>[, const=<bool>]) expected' % meth)
+        out.append('(* source line %d *)' % b[0].lineno)
+        out.append('Definition aes_%s_mask (v : Q) : bool := (%s)%%Q.' % (tag, bexpr(v.args[1], env)))
+        out.append('Definition aes_%s_const : bool := %s.' % (tag, 'true' if (v.keywords and v.keywords[0].value.value) else 'false'))
+    b = branches.get('mean')
+    if not (b is not None and len(b) == 3 and assign_of(b[0], 'newflux') is not None and ast.unparse(b[0].value) == 'flux.copy()'
+            and assign_of(b[1], 'goodpts') is not None and isinstance(b[2], ast.Assign)
+            and ast.unparse(b[2].value) == 'newflux[goodpts].mean()' and isinstance(b[2].targets[0], ast.Subscript)
+            and is_name(b[2].targets[0].value, 'newflux')):
+        raise Unrecognised('mean: newflux = flux.copy(); goodpts = ...; newflux[<dest>] = newflux[goodpts].mean() expected')
+    out.append('(* source line %d *)' % b[1].lineno)
+    out.append('Definition aes_mean_good (v : Q) : bool := (%s)%%Q.' % bexpr(b[1].value, env))
+    dest = b[2].targets[0].slice
+    if isinstance(dest, ast.UnaryOp) and isinstance(dest.op, ast.Invert) and is_name(dest.operand, 'goodpts'):
+        dterm = 'negb g'
+    elif is_name(dest, 'badpts'):
+        dterm = 'bad'
+    elif isinstance(dest, ast.UnaryOp) and isinstance(dest.op, ast.Invert) and is_name(dest.operand, 'badpts'):
+        dterm = 'negb bad'
+    elif is_name(dest, 'goodpts'):
+        dterm = 'g'
+    else:
+        raise Unrecognised('mean: destination %s' % ast.unparse(dest))
+    out.append('Definition aes_mean_dest (g bad : bool) : bool := %s.   (* line %d: %s *)' % (dterm, b[2].lineno, ast.unparse(dest)))
+    b = branches.get('nothing')
+    if not (b is not None and len(b) == 1 and assign_of(b[0], 'newflux') is not None and ast.unparse(b[0].value) in ('flux.copy()', 'flux')):
+        raise Unrecognised('nothing: newflux = flux.copy() expected')
+    out.append('Definition aes_nothing_is_input : bool := true.   (* line %d *)' % b[0].lineno)
+    out.append('Definition aesthetics_recognised : bool := true.')
+    return out
+
+
+def is_raise_valueerror(st):
+    return isinstance(st, ast.Raise) and isinstance(st.exc, ast.Call) and is_name(st.exc.func, 'ValueError')
+
+
+def generate_nd_dispatch(tree):
+    """djs_maskinterp: the argument checks and the whole dispatch on (ndim, xval given, axis) down to the loops and the
+    index pattern of every leaf `ynew[IDX] = djs_maskinterp1(yval[IDX], mask[IDX][, xval=xval[IDX]], const=const)`"""
+    fn = find_function(tree, 'djs_maskinterp')
+    body = strip_doc(fn.body)
+    out = ['(* pydl/pydlutils/image.py (djs_maskinterp): argument checks and the dispatch on (ndim, xval, axis) *)']
+    pos = 0
+
+    def shape_check(st, who):
+        return (isinstance(st, ast.If) and ast.unparse(st.test) == '%s.shape != yval.shape' % who and len(st.body) == 1
+                and not st.orelse and is_raise_valueerror(st.body[0]))
+    chk_mask = shape_check(body[pos], 'mask')
+    pos += 1 if chk_mask else 0
+    st = body[pos]
+    chk_x = isinstance(st, ast.If) and is_not_none(st.test, 'xval') and len(st.body) == 1 and not st.orelse and shape_check(st.body[0], 'xval')
+    pos += 1 if chk_x else 0
+    out.append('Definition nd_check_mask_shape : bool := %s.' % ('true' if chk_mask else 'false'))
+    out.append('Definition nd_check_xval_shape : bool := %s.' % ('true' if chk_x else 'false'))
+    if not (assign_of(body[pos], 'ndim') is not None and ast.unparse(body[pos].value) == 'yval.ndim'):
+        raise Unrecognised('ndim = yval.ndim expected')
+    pos += 1
+    top = body[pos]
+    if not (isinstance(top, ast.If) and ast.unparse(top.test) == 'ndim == 1' and len(top.body) == 1 and pos == len(body) - 2
+            and isinstance(body[-1], ast.Return) and is_name(body[-1].value, 'ynew')):
+        raise Unrecognised('`if ndim == 1: ... else: ...; return ynew` expected')
+    one = assign_of(top.body[0], 'ynew')
+    if one is None or ast.unparse(one) != 'djs_maskinterp1(yval, mask, xval=xval, const=const)':
+        raise Unrecognised('1-D route: ynew = djs_maskinterp1(yval, mask, xval=xval, const=const) expected')
+    rest = top.orelse
+    k = 0
+    none_check = (isinstance(rest[k], ast.If) and ast.unparse(rest[k].test) == 'axis is None' and len(rest[k].body) == 1
+                  and not rest[k].orelse and is_raise_valueerror(rest[k].body[0]))
+    k += 1 if none_check else 0
+    out.append('Definition nd_axis_none_is_error : bool := %s.' % ('true' if none_check else 'false'))
+    st = rest[k]
+    inv = 'false'
+    if isinstance(st, ast.If) and len(st.body) == 1 and not st.orelse and is_raise_valueerror(st.body[0]) \
+            and 'axis' in ast.unparse(st.test) and 'is None' not in ast.unparse(st.test):
+        tests = st.test.values if isinstance(st.test, ast.BoolOp) and isinstance(st.test.op, ast.Or) else [st.test]
+        parts = []
+        for t in tests:
+            if ast.unparse(t) == 'axis - int(axis) != 0':
+                continue                      # never true of an integer axis (the model's axis is an integer)
+            parts.append(zbexpr(t, {'axis': 'axis', 'ndim': 'ndim'}))
+        inv = ' || '.join(parts) if parts else 'false'
+        k += 1
+    out.append('Definition nd_axis_invalid (axis ndim : Z) : bool := %s.' % inv)
+    z = assign_of(rest[k], 'ynew')
+    if z is None or ast.unparse(z) != 'np.zeros(yval.shape, dtype=yval.dtype)':
+        raise Unrecognised('ynew = np.zeros(yval.shape, dtype=yval.dtype) expected')
+    k += 1
+    if k != len(rest) - 1:
+        raise Unrecognised('unexpected statements before the ndim dispatch')
+    entries = []
+
+    def leaf(stmts, ndim, hasx, axtest):
+        dims, vars_ = [], []
+        node = stmts
+        while len(node) == 1 and isinstance(node[0], ast.For):
+            f = node[0]
+            it = f.iter
+            if not (isinstance(f.target, ast.Name) and not f.orelse and isinstance(it, ast.Call) and is_name(it.func, 'range')
+                    and len(it.args) == 1 and isinstance(it.args[0], ast.Subscript) and ast.unparse(it.args[0].value) == 'yval.shape'
+                    and isinstance(it.args[0].slice, ast.Constant) and isinstance(it.args[0].slice.value, int)):
+                raise Unrecognised('`for v in range(yval.shape[d]):` expected')
+            dims.append(it.args[0].slice.value)
+            vars_.append(f.target.id)
+            node = f.body
+        if not (len(node) == 1 and isinstance(node[0], ast.Assign) and isinstance(node[0].targets[0], ast.Subscript)
+                and is_name(node[0].targets[0].value, 'ynew')):
+            raise Unrecognised('ynew[IDX] = djs_maskinterp1(...) expected inside the loops')
+        a = node[0]
+        idx = ast.dump(a.targets[0].slice)
+        c = a.value
+
+        def sub_of(node, name):
+            return isinstance(node, ast.Subscript) and is_name(node.value, name) and ast.dump(node.slice) == idx
+        if not (isinstance(c, ast.Call) and is_name(c.func, 'djs_maskinterp1') and len(c.args) == 2
+                and sub_of(c.args[0], 'yval') and sub_of(c.args[1], 'mask')):
+            raise Unrecognised('djs_maskinterp1(yval[IDX], mask[IDX], ...) with the IDX of the destination expected')
+        kws = {kw.arg: kw.value for kw in c.keywords}
+        if not ('const' in kws and is_name(kws['const'], 'const')) or set(kws) - {'const', 'xval'}:
+            raise Unrecognised('const=const expected in the leaf call')
+        if 'xval' in kws and not sub_of(kws['xval'], 'xval'):
+            raise Unrecognised('xval=xval[IDX] with the IDX of the destination expected')
+        sl = a.targets[0].slice
+        elts = sl.elts if isinstance(sl, ast.Tuple) else [sl]
+        pat = []
+        for e in elts:
+            if isinstance(e, ast.Slice) and e.lower is None and e.upper is None and e.step is None:
+                pat.append('None')
+            elif isinstance(e, ast.Name) and e.id in vars_:
+                pat.append('Some %d%%nat' % vars_.index(e.id))
+            else:
+                raise Unrecognised('index element %s' % ast.unparse(e))
+        entries.append('(%d%%nat, %s, %s, [%s]%%nat, [%s], %s)   (* line %d *)' % (
+            ndim, 'true' if hasx else 'false', axtest, '; '.join('%d' % d for d in dims), '; '.join(pat),
+            'true' if 'xval' in kws else 'false', a.lineno))
+
+    def axis_chain(stmts, ndim, hasx):
+        if not (len(stmts) == 1 and isinstance(stmts[0], ast.If)):
+            raise Unrecognised('`if axis == k:` chain expected')
+        node = stmts[0]
+        while True:
+            t = node.test
+            if not (isinstance(t, ast.Compare) and is_name(t.left, 'axis') and len(t.ops) == 1 and isinstance(t.ops[0], ast.Eq)
+                    and isinstance(t.comparators[0], ast.Constant) and isinstance(t.comparators[0].value, int)):
+                raise Unrecognised('`axis == <int>` expected')
+            leaf(node.body, ndim, hasx, '(Some %s)' % zlit(t.comparators[0].value))
+            if len(node.orelse) == 1 and isinstance(node.orelse[0], ast.If):
+                node = node.orelse[0]
+                continue
+            if node.orelse:
+                leaf(node.orelse, ndim, hasx, 'None')
+            break
+
+    node = rest[k]
+    while True:
+        t = node.test if isinstance(node, ast.If) else None
+        if not (isinstance(t, ast.Compare) and is_name(t.left, 'ndim') and len(t.ops) == 1 and isinstance(t.ops[0], ast.Eq)
+                and isinstance(t.comparators[0], ast.Constant) and isinstance(t.comparators[0].value, int)):
+            raise Unrecognised('`ndim == <int>` expected')
+        nd = t.comparators[0].value
+        xs = node.body
+        if not (len(xs) == 1 and isinstance(xs[0], ast.If) and ast.unparse(xs[0].test) == 'xval is None'):
+            raise Unrecognised('`if xval is None:` expected under ndim == %d' % nd)
+        axis_chain(xs[0].body, nd, False)
+        axis_chain(xs[0].orelse, nd, True)
+        if len(node.orelse) == 1 and isinstance(node.orelse[0], ast.If):
+            node = node.orelse[0]
+            continue
+        if not (len(node.orelse) == 1 and is_raise_valueerror(node.orelse[0])):
+            raise Unrecognised('the ndim dispatch must end with `else: raise ValueError`')
+        break
+    out.append('(* leaf = (ndim, xval given, axis test (Some k: `axis == k`, None: the final else), dimensions looped over (outer first),')
+    out.append('   index pattern (Some j: j-th loop variable, None: the `:` slice), xval passed on) -- in source order *)')
+    out.append('Definition nd_table : list (nat * bool * option Z * list nat * list (option nat) * bool) := [\n  %s\n].'
+               % ';\n  '.join(entries).replace(')   (* line', ')   (* line').replace(';\n', ';\n'))
+    out.append('Definition maskinterp_nd_recognised : bool := true.')
+    return out
 
 
 def generate(repo):
